@@ -729,3 +729,23 @@ impl<'a> ConstraintValidator<'a> {
         Ok(())
     }
 }
+
+#[cfg(kahflane_turdb_verif)]
+pub fn verif_days_from_ymd(year: i32, month: u32, day: u32) -> i32 {
+    ConstraintValidator::days_from_ymd(year, month, day)
+}
+
+#[cfg(kahflane_turdb_verif)]
+pub fn verif_parse_date_default(s: &str) -> OwnedValue {
+    ConstraintValidator::parse_date_default(s)
+}
+
+#[cfg(kahflane_turdb_verif)]
+pub fn verif_parse_time_default(s: &str) -> OwnedValue {
+    ConstraintValidator::parse_time_default(s)
+}
+
+#[cfg(kahflane_turdb_verif)]
+pub fn verif_parse_timestamp_default(s: &str) -> OwnedValue {
+    ConstraintValidator::parse_timestamp_default(s)
+}
